@@ -349,7 +349,12 @@ class OpGraph:
 
         # dummy trailing half-chain
         assert len(vlist_next) == 1
-        assert coeffs_next[0] == 1.0
+        if coeffs_next[0] != 1.0:
+            # coefficient has not been assigned to an edge yet (a single 'U' cover vertex
+            # at the last site passes it on): absorb it into the edge(s) leading to the end node
+            for eid in graph.nodes[vlist_next[0].nidl].eids[0]:
+                edge = graph.edges[eid]
+                edge.opics = [(i, c * coeffs_next[0]) for i, c in edge.opics]
 
         # make left node the new end node of the graph
         graph.nid_terminal[1] = vlist_next[0].nidl
